@@ -33,8 +33,8 @@ CFG = dict(
              "hand-written models coq/theories/C42/Model.v (two NAT maps) and ModelMg.v (NAT maps + Maglev LUT map, both phase orders) tied to felix/bpf/proxy/syncer.go by this correspondence run: the complete recorded schedule of single writes to all three maps must be one the models accept, with equal error flag and equal maps",
              "Go driver harness/C42 (overlay build, tag verif) incl. the recording wrapper around felix/bpf/mock.Map and the "
              "visit-order recorder shim in felix/bpf/proxy"],
-    assumptions=["IPv4, no loadBalancerSourceRanges (black-hole frontends), no topology hints, no excluded CIDRs, service is not default/kubernetes",
-                 "fewer than 2^32 service ids are allocated (uint32 wrap of nextSvcID not modelled)",
+    assumptions=["IPv4, no loadBalancerSourceRanges (source-range and black-hole frontends: not modelled - they need a fourth/fifth key field, an exemption of the all-ones count in `consistent`, a conditional Set in the desired map and new cases in every lemma about unit_frontends/spec_frontends; the driver panics if such a key is ever written), no topology hints, no excluded CIDRs, service is not default/kubernetes",
+                 "fewer than 2^32 service ids are allocated: uint32 wrap of nextSvcID is not modelled; c42_id_counter_bounded_partial / c42_startup_counter_bounded_partial make the condition explicit (counter grows by at most the number of applySvc units per Apply)",
                  "a failed map write leaves the map unchanged; nothing but the Syncer writes the maps while it runs",
                  "Maglev LUT map: every write to it is recorded too; after EACH single write of any of the three maps the oracle checks that every maglev-flagged frontend with backends finds a complete table (lutSize 7 in the driver); at the end of a completed sync: table over the ready endpoints, no stale table.  The table contents (consistent hash, C33) are an explicit parameter of the model (the driver computes them with felix/bpf/consistenthash as the syncer does); maglev writes are never made to fail; the driver probes whether the tree uses the pinned or the repaired LUT phase order (k_mgfix)",
                  "cachingmap behaviour (a failed write stays pending, the other writes of the phase go on, the phase reports the error) is the one proved for the CachingMap model in C18 (c18_cache_failed_update_stays_pending, c18_cache_failed_delete_stays_pending, c18_cache_exact_after_failures); cited, not imported",
@@ -53,7 +53,7 @@ MANIFEST = dict(
          "dataplane phases as single writes in arbitrary order with arbitrary write failures, restarts): after every single "
          "write every frontend's count refers only to existing backend entries (c42_every_write_consistent); after a completed "
          "sync the maps are exactly what the services ask for (c42_completed_sync_is_desired, c42_frontends_exactly_requested, and "
-         "c42_final_exact for the variant that empties prevSvcMap at each startup sync; c42_final_exact_refuted for the pinned code).  Correspondence run of the real Syncer over recording in-memory maps with the "
+         "c42_final_exact for a Syncer that empties prevSvcMap at each startup sync - the tree since fix 037302d; c42_final_exact_refuted otherwise); the boolean oracles are proved sound and complete for the Prop specification and accept every model run (c42_model_meets_spec); a valid schedule exists for every history (c42_schedule_exists); the three-map model with the Maglev LUT map keeps every maglev-flagged frontend's table complete after each single write under the repaired phase order (c42_maglev_every_write_consistent) and not under the pinned one (finding).  Correspondence run of the real Syncer over recording in-memory maps with the "
          "invariant evaluated after each recorded write.",
     note="Trusted: Coq kernel; hand-written model tied to the code only by the correspondence run; Go driver and shims.",
 )
